@@ -21,7 +21,28 @@ def gen_model(rng, T, smax, vals):
     ns = [rng.randint(1, smax) for _ in range(T)]
     p = [[rng.choice(vals) for _ in range(ns[k])] for k in range(T)]
     qq = [None] + [[[rng.choice(vals) for _ in range(ns[k])] for _ in range(ns[k - 1])] for k in range(1, T)]
-    return {'ns': ns, 'p': p, 'q': qq}
+    c = {'ns': ns, 'p': p, 'q': qq}
+    if rng.random() < 0.3:                        # candidate lists with repeated values: the same state listed twice (equal under ==, equal likelihoods)
+        dup = []
+        for k in ([0] if rng.random() < 0.5 else range(T)):
+            if ns[k] >= 2 and rng.random() < 0.8:
+                l1, l2 = sorted(rng.sample(range(ns[k]), 2))
+                dup.append([k, l1, l2])
+                p[k][l2] = p[k][l1]
+                if k > 0:
+                    for row in qq[k]:
+                        row[l2] = row[l1]
+                if k + 1 < T:
+                    qq[k + 1][l2] = list(qq[k + 1][l1])
+        c['dup'] = dup
+    return c
+
+
+def canon(case, k, l):
+    for kk, l1, l2 in case.get('dup', []):
+        if kk == k and l == l2:
+            return l1
+    return l
 
 
 def gen_log(rng, n, tier):
@@ -67,7 +88,7 @@ def run_impl(case):
     tr.createAnalyticalFeature('o', 0.0)
     idx = lambda k, s: (s - 100 * (k + 1)) // 7
     sign = -1.0 if case['log'] else 1.0
-    hmm = HMM(S=lambda t, k: [label(k, l) for l in range(ns[k])],
+    hmm = HMM(S=lambda t, k: [label(k, canon(case, k, l)) for l in range(ns[k])],
               Q=lambda s1, s2, k, t: sign * float(qq[k + 1][idx(k, s1)][idx(k + 1, s2)]),
               P=lambda s, y, k, t: sign * float(p[k][idx(k, s)]), log=case['log'])
     hmm.estimate(tr, 'o', verbose=0)
